@@ -756,15 +756,33 @@ def _import_time_consumers(mods):
     for name, m in mods.items():
         if name == "evo.tools.settings":
             continue              # defines the container
+        def import_time(st):
+            """the sub-trees of a module-level statement that are evaluated
+            when the module is imported"""
+            if isinstance(st, (ast.Import, ast.ImportFrom)):
+                return
+            if isinstance(st, (ast.FunctionDef, ast.AsyncFunctionDef)):
+                # default values and decorators, not the body
+                a = st.args
+                yield from a.defaults
+                yield from (d for d in a.kw_defaults if d is not None)
+                yield from st.decorator_list
+                return
+            if isinstance(st, ast.ClassDef):
+                yield from st.decorator_list
+                yield from st.bases
+                for sub in st.body:
+                    yield from import_time(sub)
+                return
+            yield st
         for st in m.tree.body:
-            if isinstance(st, (ast.FunctionDef, ast.AsyncFunctionDef,
-                               ast.ClassDef, ast.Import, ast.ImportFrom)):
-                continue
-            for n in ast.walk(st):
-                if (isinstance(n, ast.Name) and n.id == "SETTINGS") or \
-                        (isinstance(n, ast.Attribute) and
-                         n.attr == "SETTINGS"):
-                    out.setdefault(name, st.lineno)
+            for part in import_time(st):
+                for n in ast.walk(part):
+                    if (isinstance(n, ast.Name) and n.id == "SETTINGS") or \
+                            (isinstance(n, ast.Attribute) and
+                             n.attr == "SETTINGS"):
+                        out.setdefault(name, getattr(n, "lineno",
+                                                     st.lineno))
     return out
 
 
